@@ -316,3 +316,24 @@ Proof.
   destruct (Forall2_DIok_split _ _ HF) as [A _].
   split; [reflexivity|]. split; [reflexivity|]. split; [exact A|apply sort_days_equiv; exact A].
 Qed.
+
+(* ------------------------------------------------------------------ knut balance: the report trees *)
+From Knut Require Import Proofs.OrderReport.
+
+Lemma Forall2_DIok_equiv l1 l2 : Forall2 DIok l1 l2 -> Forall2 day_equiv l1 l2.
+Proof. intros H. apply Forall2_DIok_split in H. apply H. Qed.
+
+(* both runs fail, or they produce the same partition and report trees that are equal up to
+   the order of each node's amounts list ([OrderReport.report_eq]: same tree shape, same
+   segments, paths and flags; per node the same bindings (date, commodity) -> amount) *)
+Theorem balance_report_perm cfg sds1 sds2 :
+  Permutation sds1 sds2 -> sd_syntactic sds1 -> no_conflicting_prices sds1 ->
+  ceq (fun a b => report_eq (fst a) (fst b) /\ snd a = snd b) (balance_report cfg sds1) (balance_report cfg sds2).
+Proof.
+  intros P Hs Hn. rewrite !balance_report_days.
+  eapply ceq_bind; [apply balance_days_perm; eassumption|].
+  intros [l1 pt1] [l2 pt2] [HF E]. cbn [fst snd] in *. subst pt2.
+  eapply ceq_bind.
+  - unfold run_stage. apply ceq_of_presult. apply query_stage_rel. apply Forall2_DIok_equiv. exact HF.
+  - intros [r1 x1] [r2 x2] H. cbn [ceq fst snd] in *. split; [exact H|reflexivity].
+Qed.
